@@ -797,3 +797,33 @@ M("C19.optional_none_maps_to_some_null", ["C19"], "src/macro_hooks.rs",
     fn __private_optional_map_option_ref<""", "C19.R3") if False else None
 M("C19.value_debug_not_forwarded", ["C19"], "core/src/value.rs",
   "        fmt::Debug::fmt(&self.0, f)", "        fmt::Display::fmt(&self.0, f)", "C19.R4.forward") if False else None
+
+# ---- configurations the test-suite never builds (thorough tier overlays) -----------------------------
+M("C05.nostd_is_panicking_true", ["C05"], "src/span.rs",
+  """                #[cfg(not(feature = "std"))]
+                {
+                    false
+                }""",
+  """                #[cfg(not(feature = "std"))]
+                {
+                    true
+                }""", "K2b/C05.R7:is_panicking", tier="thorough")
+M("C20.nostd_slot_claims_enabled", ["C20"], "core/src/runtime.rs",
+  """        pub fn is_enabled(&self) -> bool {
+            false
+        }
+
+        /**
+        When the `std` feature is not enabled this method always returns an empty runtime.
+        */
+        pub fn get(&self) -> &AmbientRuntime {
+            const EMPTY""",
+  """        pub fn is_enabled(&self) -> bool {
+            true
+        }
+
+        /**
+        When the `std` feature is not enabled this method always returns an empty runtime.
+        */
+        pub fn get(&self) -> &AmbientRuntime {
+            const EMPTY""", "C20.K2a.R3", tier="thorough")
